@@ -182,6 +182,9 @@ class StmtMixin:
             if o.t == 'dict':
                 self.dict_store(st, o, key, v)
                 return [('ok', st, NONE_SV)]
+            if o.t == 'kwdict' and key.k == 'str' and z3.is_string_value(z3.simplify(key.v)):
+                self.local(st, o).items[z3.simplify(key.v).as_string()] = v
+                return [('ok', st, NONE_SV)]
             if o.t == 'list' and key.k == 'int':
                 seq = self.list_seq(st, o)
                 n = z3.Length(seq)
